@@ -209,10 +209,27 @@ class _Canon(ast.NodeTransformer):
                 and not any(isinstance(e, ast.Starred) for e in n.args[0].elts):
             cls_ = ast.List if f.id == "list" else ast.Tuple
             return ast.copy_location(cls_(elts=list(n.args[0].elts), ctx=ast.Load()), n)
+        # keyword spelling of the leading positional parameters of a few numpy functions: np.linspace(a, b, num=n) -> np.linspace(a, b, n)
+        if isinstance(f, ast.Attribute) and isinstance(f.value, ast.Name) and f.value.id in ("np", "numpy") and f.attr in _NP_POSITIONAL and n.keywords:
+            sig = _NP_POSITIONAL[f.attr]
+            args, kws = list(n.args), list(n.keywords)
+            while len(args) < len(sig) and not any(isinstance(a_, ast.Starred) for a_ in args):
+                nxt = [k_ for k_ in kws if k_.arg == sig[len(args)]]
+                if len(nxt) != 1:
+                    break
+                args.append(nxt[0].value)
+                kws.remove(nxt[0])
+            if len(args) != len(n.args):
+                n = ast.copy_location(ast.Call(func=f, args=args, keywords=kws), n)
         # dict(a, **b) -> {**a, **b}
         if isinstance(f, ast.Name) and f.id == "dict" and len(n.args) == 1 and n.keywords and all(k.arg is None for k in n.keywords):
             return ast.copy_location(ast.Dict(keys=[None] * (1 + len(n.keywords)), values=[n.args[0]] + [k.value for k in n.keywords]), n)
         return n
+
+
+_NP_POSITIONAL = {"linspace": ("start", "stop", "num"), "arange": ("start", "stop", "step"), "clip": ("a", "a_min", "a_max"), "where": ("condition", "x", "y"),
+                  "full": ("shape", "fill_value"), "searchsorted": ("a", "v"), "take": ("a", "indices"), "diff": ("a", "n"), "reshape": ("a", "newshape"),
+                  "interp": ("x", "xp", "fp"), "digitize": ("x", "bins"), "hypot": ("x1", "x2"), "arctan2": ("x1", "x2")}
 
 
 def canon(node):
